@@ -15,20 +15,21 @@ def encodings(ctx):
         return
     v = R.v
     cmdk = key(R.cmd)
-    for s, role in R.sites.items():
+    for s, role, site, site_strobes in R.all_sites:
         ls = v.fsm_leaves(R.fsm, s)
-        for site in R.site_leaves[s]:
+        if True:
             gsite = litset(v.guard_lits(site, False))
             kinds = {}
             for nm in ("is_cmd", "is_read", "is_write", "we"):
                 for l in v.asserted(ls, "%s.%s" % (cmdk, nm)):
-                    kinds.setdefault(nm, []).append(litset(v.guard_lits(l, False)))
+                    if R.mine(site, l):
+                        kinds.setdefault(nm, []).append(litset(v.guard_lits(l, False)))
             want = REF_ENC[role] if role in ("ACT", "PRE") else None
-            if want is not None and R.site_strobes[s] != want:
+            if want is not None and site_strobes != want:
                 ob.refute("strobes:%s" % s, "state %s (%s by its effect on the row tracking) presents strobes %s, the %s encoding is %s" %
-                          (s, role, sorted(R.site_strobes[s]), role, sorted(want)), site.loc)
-            if role == "COL" and not ("cas" in R.site_strobes[s] and "ras" not in R.site_strobes[s]):
-                ob.refute("strobes:%s" % s, "column command state %s presents strobes %s" % (s, sorted(R.site_strobes[s])), site.loc)
+                          (s, role, sorted(site_strobes), role, sorted(want)), site.loc)
+            if role == "COL" and not ("cas" in site_strobes and "ras" not in site_strobes):
+                ob.refute("strobes:%s" % s, "column command state %s presents strobes %s" % (s, sorted(site_strobes)), site.loc)
             if role in ("ACT", "PRE"):
                 ok = "is_cmd" in kinds and any(g <= gsite for g in kinds["is_cmd"]) and "is_read" not in kinds and "is_write" not in kinds
                 ob.instance("bank FSM state %s: %s" % (s, role), {"class": sorted(kinds)})
@@ -124,10 +125,10 @@ def typestate(ctx):
         tag = "auto_precharge=%s" % ap
         nodes = list(R.fsm.states) + [n for n in R.delayed if n not in R.fsm.states]
         # accepted ACT / PRE must leave the state
-        for s, role in R.sites.items():
+        for s, role, site, _st in R.all_sites:
             if role == "COL":
                 continue
-            for site in R.site_leaves[s]:
+            if True:
                 gs = v.guard_keys(site, False)
                 outs = [l for (src, d, l) in R.edges if src == s]
                 ok = any(v.guard_keys(l, False) == gs | {ready} for l in outs)
@@ -142,6 +143,13 @@ def typestate(ctx):
         gnt_sites = {s: ls_ for s, ls_ in gnt_sites.items() if ls_}
         gnt_states = set(gnt_sites)
         rrk = key(R.refresh_req)
+
+        def forced_exit(og, exits):
+            if any(e_ <= og for e_ in exits):
+                return True
+            ext = [e_ - og for e_ in exits if og <= e_ and len(e_ - og) == 1]
+            lits_ = {list(x_)[0] for x_ in ext}
+            return any((("~" + l_) in lits_) for l_ in lits_ if not l_.startswith("~"))
 
         def contradict(g1, g2):
             return any((("~" + x) in g2) or (x.startswith("~") and x[1:] in g2) for x in g1)
@@ -167,18 +175,35 @@ def typestate(ctx):
             if any(not l.guards for l in cl):
                 bs = {0}
             elif cl:
-                bs = {b, 0}
+                cgs = [v.guard_keys(l, False) for l in cl]
+                exits = [e_ for (d_, e_, _l) in succ.get(s, [])]
+                if selfloop:
+                    # a conditional close whose condition also forces an exit never fires while the FSM stays in the state
+                    bs = {b} if all(forced_exit(cg, exits) for cg in cgs) else {b, 0}
+                elif any(cg <= E for cg in cgs):
+                    bs = {0}
+                elif any(not contradict(cg, E) for cg in cgs):
+                    bs = {b, 0}
+                else:
+                    bs = {b}
             elif op:
-                if (not selfloop) and any(v.guard_keys(l, False) <= E for l in op):
+                ogs = [v.guard_keys(l, False) for l in op]
+                exits = [e_ for (d_, e_, _l) in succ.get(s, [])]
+                if (not selfloop) and any(og <= E for og in ogs):
                     bs = {1}
+                elif selfloop and all(forced_exit(og, exits) for og in ogs):
+                    bs = {b}          # whenever the open strobe fires the FSM leaves the state (accepted or not)
+                elif (not selfloop) and all(contradict(og, E) for og in ogs):
+                    bs = {b}
                 else:
                     bs = {b, 1}
             # actual
             an = a
             if not selfloop:
                 role = R.sites.get(s)
-                if role in ("ACT", "PRE") and ready in E and any(v.guard_keys(x, False) <= E for x in R.site_leaves[s]):
-                    an = 1 if role == "ACT" else 0
+                hit = [r_ for (s_, r_, x, _st) in R.all_sites if s_ == s and r_ in ("ACT", "PRE") and ready in E and v.guard_keys(x, False) <= E]
+                if hit:
+                    an = 1 if hit[0] == "ACT" else 0
                 elif role == "COL" and a10 is not None and key(a10) in E and ready in E:
                     an = 0
                 elif s in gnt_sites:
@@ -217,6 +242,15 @@ def typestate(ctx):
                             if ns not in reach[d]:
                                 reach[d].add(ns); changed = True
         ctx.stat("typestate_pairs", sum(len(x) for x in reach.values()))
+        for s_, r_, x, _st in R.extra_sites:
+            if r_ == "ACT":
+                gx = v.guard_keys(x, False)
+                bk = key(R.belief)
+                prs = sorted((b, a) for b, a in reach[s_] if not (("~" + bk) in gx and b == 1) and not (bk in gx and b == 0))
+                ob.instance("%s: additional ACT site in state %s reachable (belief, actual) pairs" % (tag, s_), prs)
+                if any(a == 1 for b, a in prs):
+                    ob.refute("act-open:%s" % s_, "ACT can be presented in state %s (under %s) while the bank is still open (reachable (belief,actual) pairs %s)" %
+                              (s_, sorted(gx), prs), x.loc)
         for s, role in R.sites.items():
             pairs = sorted(reach[s])
             if role == "ACT":
